@@ -1868,7 +1868,23 @@ fn run_audit_as(case: &Value) -> Value {
         "c08",
         vec![sp("third", third), sp("policy", pol_s), sp("auditas", aa_s)],
     );
-    json!({"status": "ok", "model_input": {"pkgs": pkgs, "pols": pols},
+    // the choice of the version an unpublished one is audited as: what going online records
+    let mut case_online = case.clone();
+    case_online["mode"] = json!("unlocked");
+    let unpublished: Value = match acquire(&case_online, &cfg) {
+        Acquired::Store(s) => Value::Array(
+            s.unpublished()
+                .iter()
+                .flat_map(|(n, l)| {
+                    l.iter().map(move |u| {
+                        json!([n, u.version.to_string(), u.audited_as.to_string(), u.is_fresh_import])
+                    })
+                })
+                .collect(),
+        ),
+        Acquired::Refused(e) => json!({"refused": e.chars().take(200).collect::<String>()}),
+    };
+    json!({"status": "ok", "unpublished": unpublished, "model_input": {"pkgs": pkgs, "pols": pols},
            "tables": {"names": it.names, "versions": it.versions.iter().map(|v| v.to_string()).collect::<Vec<_>>()},
            "obs": obs})
 }
